@@ -86,7 +86,14 @@ def build():
     u.raw("use stdshim::fs;\n")
     u_generate.config_types(u)
     u.real_item(CTX, r"pub struct Cache\b", lambda t: common.wrap(common.pub_fields(common.strip_doc(re.sub(r"#\[derive\([^\]]*\)\]", "", t)))))
-    u.include("shims/driver_stubs.rs")
+    u.include("shims/driver_stubs_core.rs")
+    u.include("shims/walk.rs")
+    from . import u_finder
+    _tmpf = Unit("tmpf")
+    _fn = u_finder.finder_new(_tmpf)
+    u.raw("verus! {\nimpl<'ctx> CodeFinder<'ctx> {\n")
+    u.stub_of(_fn, note="CodeFinder::new: contract proved in unit `finder`")
+    u.raw("}\n}\n")
     u.real_item(GEN, r"struct InsertReferencesResult\b", lambda t: common.wrap(common.pub_fields(common.strip_doc(t))), "R7")
     u.include("spec/ids.rs")
     u.include("spec/tree.rs")
